@@ -153,37 +153,7 @@ int main(int argc, char** argv)
         FILE* out = fopen(argv[3], "w");
         if (!out) { perror("out"); rc = 2; return; }
         for (const auto& d : descs)
-        {
-            std::string o;
-            using P = std::remove_pointer_t<decltype(host::make_parser(d))>;
-            std::unique_ptr<P> p;
-            std::string threw;
-            vh::tl_log.reset();
-            try { p.reset(host::make_parser(d)); }
-            catch (const std::exception& e) { threw = e.what(); }
-            if (!p)
-            {
-                o += "{\"g\":"; vh::jstr(o, d.id); o += ",\"construct_threw\":"; vh::jstr(o, threw); o += "}\n";
-                fwrite(o.data(), 1, o.size(), out);
-                continue;
-            }
-            o += "{\"dump\":";
-            ctpg_verif::access::dump(*p, d.id, o);
-            o.back() = '}'; o += "\n";
-            {
-                std::ostringstream ds; p->write_diag_str(ds);
-                o += "{\"diag\":"; vh::jstr(o, ds.str()); o += ",\"g\":"; vh::jstr(o, d.id); o += "}\n";
-            }
-            fwrite(o.data(), 1, o.size(), out);
-            std::string prefix = d.id + ":";
-            for (const auto& j : jobs)
-            {
-                if (j.id.compare(0, prefix.size(), prefix) != 0) continue;
-                std::string t;
-                vh::run_job(*p, j, d.id, t);
-                fwrite(t.data(), 1, t.size(), out);
-            }
-        }
+            vh::serve_one([&] { return host::make_parser(d); }, d.id, jobs, out);
         fclose(out);
     });
     return rc;
